@@ -455,14 +455,25 @@ Definition h_exec (now : Z) (s : server) (c : Z) (cn : conn) : frame * server :=
 (** WATCH: registers key by key under the connection's current database *)
 (** on a non-bulk argument the handler answers an error having already registered
     the keys before it (they stay in watched_keys) *)
-Fixpoint watch_loop_partial (dbi : Z) (t : tracker) (args : list frame) (w : list (bytes * Z))
-  : tracker * list (bytes * Z) * bool :=
+(** key by key: a key the connection already watches in this database keeps its first baseline
+    (3f1b680); otherwise the key is expired lazily (d9330f8: removed and marked if its stored
+    deadline has passed) and then registered *)
+Fixpoint watch_loop_partial (now : Z) (dbi : Z) (d : db) (t : tracker) (args : list frame) (w : list (bytes * Z))
+  : db * tracker * list (bytes * Z) * bool :=
   match args with
-  | [] => (t, w, true)
-  | FBulk k :: r => match register_watch t k with
-                    | (b, t') => watch_loop_partial dbi t' r (aset (wkey dbi k) b w)
-                    end
-  | _ :: _ => (t, w, false)
+  | [] => (d, t, w, true)
+  | FBulk k :: r =>
+      match alookup (wkey dbi k) w with
+      | Some _ => watch_loop_partial now dbi d t r w
+      | None =>
+          match purge_key now (d, []) k with
+          | (d1, removed) =>
+              match register_watch (mark_all t removed) k with
+              | (b, t') => watch_loop_partial now dbi d1 t' r (aset (wkey dbi k) b w)
+              end
+          end
+      end
+  | _ :: _ => (d, t, w, false)
   end.
 (** UNWATCH: every watch is unregistered in the database it was registered in *)
 Definition unwatch_all (s : server) (w : list (bytes * Z)) : server :=
@@ -505,10 +516,10 @@ Definition process_frame (now : Z) (s : server) (c : Z) (req : frame) (oracle : 
               else if beq command (bs "WATCH") then
                 if len parts <? 2 then (r_err, s)
                 else if c_intx cn then (r_err, s)
-                else match watch_loop_partial (c_db cn) (get_trk s (c_db cn)) rest (c_watched cn) with
-                     | (t', w', okb) =>
+                else match watch_loop_partial now (c_db cn) (get_db s (c_db cn)) (get_trk s (c_db cn)) rest (c_watched cn) with
+                     | (d', t', w', okb) =>
                          (if okb then r_ok else r_err,
-                          set_conn (set_trk s (c_db cn) t') c (with_tx cn (c_intx cn) (c_queue cn) w'))
+                          set_conn (set_trk (set_db s (c_db cn) d') (c_db cn) t') c (with_tx cn (c_intx cn) (c_queue cn) w'))
                      end
               else if beq command (bs "UNWATCH") then
                 (r_ok, set_conn (unwatch_all s (c_watched cn)) c (with_tx cn (c_intx cn) (c_queue cn) []))
